@@ -502,8 +502,9 @@ def svc_gate(ri: int, ts: int, hist: int):
 
 
 def _depends_on_created(name, opts):
-    # removing an application that is not installed addresses a missing component
-    return name == "node-application-remove" and opts.get("application_name") == "dos-bot"
+    # removing / configuring an application that the scenario does not install (dos-bot only exists after a run-time
+    # install) addresses a missing component
+    return (name == "node-application-remove" and opts.get("application_name") == "dos-bot") or name == "configure-dos-bot"
 
 
 _N_PATHS_HINT = 130
@@ -511,7 +512,7 @@ _N_PATHS_HINT = 130
 HARNESSES = {
     "rm_kernel": {
         "fn": rm_kernel,
-        "quick": [{"fixed": {}, "timeout": 200}],
+        "quick": [{"fixed": {}, "timeout": 500}],
         "thorough": [{"fixed": {}, "timeout": 600}],
         "cover": ["reached", "obstacle_unreachable", "obstacle_failure"],
         "bounds": "3-level tree; every combination of missing key / refusing validator / truncation (0..3 keys) / handler answer",
